@@ -29,6 +29,7 @@ Document level: formula-heavy seeded histories; after every successful bundle th
 saved and reloaded as above.
 """
 import json
+import re
 import marshal
 import os
 
@@ -37,6 +38,8 @@ from gx.pyval import Ctx, Ser, build, strip, NotInUniverse
 from gx.props import _hist
 
 PROP = "C07"
+SIG_NEGREF = ("reload: a reference holding a NEGATIVE row id (left behind by a type change of a column that held negative "
+              "numbers) is followed as row -k by the running engine and as the empty reference by the reopened one")
 SIG_NAN = "reload: a NaN nested inside a list/dict cell makes equal_encoding fail, Calculate re-emits the cell on every reopening"
 def sig_reparse(t):
   return "reload: %s cell text that the column's set() parses again differs from the recomputed text" % t.split(":")[0]
@@ -304,6 +307,10 @@ def reopen_oracle(h, rec):
   # property excludes
   if res.stored and all(" at 0x" in json.dumps(a_) for a_ in res.stored) and all(" at 0x" in x for x in d):
     h.stats["volatile_repr_results_skipped"] = h.stats.get("volatile_repr_results_skipped", 0) + 1
+    return
+  negref = re.compile(r'\[\\?"R\\?", \\?"\w+\\?", -\d+\]')
+  if d and all(negref.search(x) for x in d):
+    h._find(PROP, SIG_NEGREF, "%s; Calculate stored %s" % ("; ".join(d[:2]), json.dumps(res.stored)[:200]), rec)
     return
   if res.stored:
     nan = any("nan" in json.dumps(a) for a in res.stored)
